@@ -81,7 +81,8 @@ AskVariants == {<<>>, ("a1L" :> LegacyAsk)}
 Book(a, b1, b2) == [cfg |-> Cfg, asks |-> a, bids |-> b1 @@ b2, extra |-> <<>>]
 \* old-format, current-format and old-format bids in key order (both formats live under one namespace)
 \* orders living under the other legacy id forms (upper-case, urn, braced)
-LegacyBook == Book(("a3U" :> LegacyAskU), ("b4R" :> LegacyBidR), ("b5B" :> LegacyBidB))
+LegacyBidU == [FreshBid("b6U", "buyer1") EXCEPT !.ab = 1, !.aq = 2, !.af = 1]   \* upper-case key, current format
+LegacyBook == Book(("a3U" :> LegacyAskU), ("b4R" :> LegacyBidR), ("b5B" :> LegacyBidB) @@ ("b6U" :> LegacyBidU))
 FixedBook == Book(("a1L" :> LegacyAsk), ("b1" :> AsV2(FreshBid("b1", "buyer1"), <<Ev("fill", 1, 2, 1)>>)),
                   ("b2L" :> [FreshBid("b2L", "buyer2") EXCEPT !.ab = 1, !.aq = 2, !.af = 1])
                   @@ ("b3" :> AsV2(FreshBid("b3", "buyer2"), <<Ev("reject", 1, 2, 1), Ev("fill", 1, 1, 0), Ev("refund", 0, 1, 0)>>)))
@@ -92,13 +93,20 @@ LongIds == <<"b1", "b2", "b3", "b4", "b5", "b6", "b7", "b8", "s1", "s2", "s3">>
 LongBook == Book(<<>>, [k \in Range(LongIds) |-> [FreshBid(k, "buyer1") EXCEPT !.ab = 1, !.aq = 2, !.af = 1]],
                  ("s4" :> AsV2(FreshBid("s4", "buyer2"), <<Ev("fill", 1, 2, 1), Ev("reject", 1, 2, 0)>>)))
 
+\* twelve old-format bids (a migration that converts the book page by page must reach the last one)
+OldLongBook == Book(<<>>, [k \in Range(LongIds) |-> AsV2(FreshBid(k, "buyer1"), <<Ev("fill", 1, 2, 1)>>)],
+                    ("s4" :> AsV2(FreshBid("s4", "buyer2"), <<Ev("fill", 1, 2, 1), Ev("reject", 1, 2, 0)>>)))
+\* a configuration with required attributes on both sides (cleared by an empty list at migration)
+CfgAttrs == [Cfg EXCEPT !.askattrs = <<"kyc">>, !.bidattrs = <<"kyc", "acc">>]
+
 AllVersions == {NoVer, "garbage", "1.0", "0.14.9", "0.15.0", "0.16.1", "0.16.2", "0.18.2", "0.19.0", "0.19.1",
                 "1.0.0", "2.0.0", "1.0.0-rc1", "0.16.2-alpha", "1.0.0+build5",
                 \* versions whose order as strings differs from their order as versions
                 "0.9.3", "0.16.10", "0.100.0", "10.0.0"}
 Seeds ==
        {[FixedBook EXCEPT !.cfg = c] @@ [ver |-> v] : v \in AllVersions, c \in {Cfg, UnsetCfg}}
-  \cup {LongBook @@ [ver |-> "0.19.0"]}
+  \cup {LongBook @@ [ver |-> "0.19.0"], OldLongBook @@ [ver |-> "0.18.2"]}
+  \cup {[Book(("a1L" :> LegacyAsk), <<>>, <<>>) EXCEPT !.cfg = CfgAttrs] @@ [ver |-> "0.18.2"]}
   \cup {LegacyBook @@ [ver |-> v] : v \in {"0.18.2", "1.0.0"}}
   \cup {Book(a, b1, b2) @@ [ver |-> v] : v \in (IF Tier = "quick" THEN {"0.18.2"} ELSE {"0.18.2", "0.19.1"}),
                                           a \in (IF Tier = "quick" THEN {<<>>} ELSE AskVariants),
@@ -119,7 +127,8 @@ MigMsgs ==
    [N EXCEPT !.askfee_rate = Some(R(5000))], [N EXCEPT !.bidfee_acct = Some("bidfee1")],
    [N EXCEPT !.askfee_rate = Some(Dec(0, "bad_word")), !.askfee_acct = Some("askfee1")],
    [N EXCEPT !.askfee_rate = Some(R(5000)), !.askfee_acct = Some("BAD")],
-   [N EXCEPT !.askattrs = Some(<<"kyc">>), !.bidattrs = Some(<<>>)]}
+   [N EXCEPT !.askattrs = Some(<<"kyc">>), !.bidattrs = Some(<<>>)],
+   [N EXCEPT !.askattrs = Some(<<>>)], [N EXCEPT !.bidattrs = Some(<<"acc">>)]}
 
 Keys(S, side) == IF side = "ask" THEN DOMAIN S.asks ELSE DOMAIN S.bids
 ContReqs(S) ==
@@ -127,11 +136,13 @@ ContReqs(S) ==
           : k \in {"cancel_ask", "expire_ask"}, i \in {"a1L", "a1", "a2"}}
   \cup {RReverse(k, IF k = "cancel_bid" THEN (IF i = "b1" THEN "buyer1" ELSE "buyer2") ELSE "exec1", NoFunds, i, NoSize)
           : k \in {"cancel_bid", "expire_bid"}, i \in {"b1", "b2L", "b2", "b3"}}
-  \cup {RReverse("cancel_bid", "buyer2", NoFunds, "s4", NoSize), RQuery("query_bid", "s4")}
+  \cup {RReverse("cancel_bid", "buyer2", NoFunds, "s4", NoSize), RQuery("query_bid", "s4"),
+        RReverse("expire_bid", "exec1", NoFunds, "s3", NoSize), RQuery("query_bid", "s3")}
   \cup {RReverse("cancel_ask", "seller1", NoFunds, "a3U", NoSize), RReverse("expire_ask", "exec1", NoFunds, "a3U", NoSize),
         RReverse("cancel_bid", "buyer1", NoFunds, "b4R", NoSize), RReverse("expire_bid", "exec1", NoFunds, "b4R", NoSize),
         RReverse("cancel_bid", "buyer2", NoFunds, "b5B", NoSize), RReverse("expire_bid", "exec1", NoFunds, "b5B", NoSize),
-        RQuery("query_ask", "a3U"), RQuery("query_bid", "b4R"), RQuery("query_bid", "b5B"),
+        RQuery("query_ask", "a3U"), RQuery("query_bid", "b4R"), RQuery("query_bid", "b5B"), RQuery("query_bid", "b6U"),
+        RReverse("reject_bid", "exec1", NoFunds, "b6U", 1), RReverse("expire_bid", "exec1", NoFunds, "b6U", NoSize),
         RReverse("reject_ask", "exec1", NoFunds, "a3U", 1), RReverse("reject_bid", "exec1", NoFunds, "b4R", 1)}
   \cup {RReverse("reject_bid", "exec1", NoFunds, i, s) : i \in {"b1", "b2L"}, s \in {NoSize, 1}}
   \cup {RReverse("reject_ask", "exec1", NoFunds, "a1L", 1)}
@@ -146,7 +157,11 @@ ContReqs(S) ==
 \* which keeps the number of configurations per behaviour small
 DoMigrate == \E m \in MigMsgs : (st.ver = PkgVer => (~MigMsgValid(m) \/ Overridden(st.cfg, m) = st.cfg)) /\ Step(RMigrate(m))
 \* arbitrary logs need not describe a bid this contract could have produced: only the conversion is examined
-DoCont    == \E r \in {x \in ContReqs(st) : Family = "realistic" \/ x.kind \in QueryKinds} : Step(r)
+\* on the long books only the orders at the end of the key order (and one at the start) are operated on: the long
+\* books are about the migration reaching every bid, not about the life of twelve bids at once
+LongOk(S, x) == Cardinality(DOMAIN S.bids) <= 6
+                \/ ("id" \in DOMAIN x /\ x.id \in {"s4", "s3", "b1"} /\ x.kind \in QueryKinds \cup {"cancel_bid", "expire_bid"})
+DoCont    == \E r \in {x \in ContReqs(st) : (Family = "realistic" \/ x.kind \in QueryKinds) /\ LongOk(st, x)} : Step(r)
 
 Next == DoMigrate \/ DoCont
 =============================================================================
